@@ -418,7 +418,9 @@ func (fs *memFS) Stat(ctx context.Context, name string) (os.FileInfo, error) {
 		return fs.root.stat("/"), nil
 	}
 	if n, ok := dir.children[frag]; ok {
-		return n.stat(path.Base(name)), nil
+		// frag is the last element of the cleaned name; path.Base(name)
+		// would be "." or ".." for names such as "/a/." or "/a/b/..".
+		return n.stat(frag), nil
 	}
 	return nil, os.ErrNotExist
 }
